@@ -1990,6 +1990,872 @@ Proof.
   rewrite IH; [apply exec_ref; auto | apply wfb_ref; exact Hw | apply sig_canon_ref; exact Hw].
 Qed.
 
+(* =================================================================== 13b. Node.load: the second, top-level get/set cycle *)
+Definition adopted (m : node) : node :=
+  Node (nlab m) (nkind m) (ncls m) (nfailed m) (nrunning m) (drop_live (nexe m))
+       (nins m) (nouts m) (nsin m) (nsout m) (relevel (nkids m)) (nstart m) (nprov m).
+
+Lemma setrcv_same cs l r c :
+  NoDup (map dlab cs) -> findd l cs = Some c -> drcv c = r -> setrcv l r cs = cs.
+Proof.
+  intros Hn Hf Hv. apply findd_In in Hf. destruct Hf as [Hi Hl]. subst l.
+  unfold setrcv. rewrite <- (map_id cs) at 2. apply map_ext_in. intros c' Hc'.
+  destruct (String.eqb (dlab c') (dlab c)) eqn:E; [|reflexivity]. apply String.eqb_eq in E.
+  assert (c' = c).
+  { pose proof (findd_nodup _ _ Hn Hc') as A. pose proof (findd_nodup _ _ Hn Hi) as B. rewrite E in A. congruence. }
+  subst c'. unfold set_drcv. rewrite <- Hv. destruct c; reflexivity.
+Qed.
+
+Lemma forge_ins_idem n : forall L : list (string * cref),
+  NoDup (map dlab (nins n)) ->
+  (forall lk : string * cref, In lk L -> exists c x c',
+      findd (fst lk) (nins n) = Some c /\ drcv c = RChild (fst (snd lk)) (snd (snd lk)) /\
+      findn (fst (snd lk)) (nkids n) = Some x /\ findd (snd (snd lk)) (nins x) = Some c' /\
+      push_in x (snd (snd lk)) (dval c) = Ok x) ->
+  forge_ins n L = Ok n.
+Proof.
+  induction L as [|lk r IH]; intros Hn Hq; [reflexivity|]. cbn [forge_ins].
+  destruct (Hq lk (or_introl eq_refl)) as [c [x [c' [Fc [Er [Fk [Fc' Pq]]]]]]].
+  unfold forge_in. rewrite Fc, Fk, Fc'.
+  rewrite (@push_kid_quiet (nkids n) (fst (snd lk)) (snd (snd lk)) (dval c) x Fk Pq).
+  rewrite (@setrcv_same (nins n) (fst lk) _ c Hn Fc Er). rewrite set_same.
+  apply IH; auto. intros lk' H'. apply Hq. right. exact H'.
+Qed.
+
+Lemma set_out_kids_same n : set_nkids (set_nouts n (nouts n)) (nkids n) = n.
+Proof. destruct n; reflexivity. Qed.
+
+Lemma forge_outs_idem n : forall L : list (cref * string),
+  NoDup (map dlab (nouts n)) -> NoDup (map nlab (nkids n)) ->
+  (forall k, In k (nkids n) -> NoDup (map dlab (nouts k))) ->
+  (forall lk : cref * string, In lk L -> exists k c c',
+      findn (fst (fst lk)) (nkids n) = Some k /\ findd (snd (fst lk)) (nouts k) = Some c /\
+      drcv c = RParent (snd lk) /\ findd (snd lk) (nouts n) = Some c' /\ dval c' = dval c) ->
+  forge_outs n L = Ok n.
+Proof.
+  induction L as [|lk r IH]; intros Hn Hk Hko Hq; [reflexivity|]. cbn [forge_outs].
+  destruct (Hq lk (or_introl eq_refl)) as [k [c [c' [Fk [Fc [Er [Fo Hv]]]]]]].
+  unfold forge_out. rewrite Fk, Fc, Fo.
+  rewrite (@setval_same (nouts n) (snd lk) (dval c) c' Hn Fo Hv).
+  assert (Ek : map (fun k' => if String.eqb (nlab k') (fst (fst lk))
+                              then set_nouts k' (setrcv (snd (fst lk)) (RParent (snd lk)) (nouts k')) else k') (nkids n)
+               = nkids n).
+  { rewrite <- (map_id (nkids n)) at 2. apply map_ext_in. intros k' Hk'.
+    destruct (String.eqb (nlab k') (fst (fst lk))) eqn:E; [|reflexivity]. apply String.eqb_eq in E.
+    pose proof (findn_In _ _ Fk) as [Hkin Hkl].
+    assert (k' = k).
+    { pose proof (findn_nodup _ _ Hk Hk') as A. pose proof (findn_nodup _ _ Hk Hkin) as B. rewrite E, <- Hkl in A. congruence. }
+    subst k'. rewrite (@setrcv_same (nouts k) (snd (fst lk)) _ c (Hko k Hkin) Fc Er). destruct k; reflexivity. }
+  rewrite Ek, set_out_kids_same. apply IH; auto. intros lk' H'. apply Hq. right. exact H'.
+Qed.
+
+Lemma put_put fi fo gi go fi' fo' gi' go' K :
+  put fi fo gi go (put fi' fo' gi' go' K) = put fi fo gi go K.
+Proof.
+  unfold put. rewrite map_map. apply map_ext. intros k. unfold putk. cbn. rewrite !map_map. reflexivity.
+Qed.
+
+Lemma relevel_putk_lab K : map nlab (relevel K) = map nlab K.
+Proof. unfold relevel, put. rewrite map_map. reflexivity. Qed.
+
+Theorem adopt_exact m :
+  wfb m = true -> own_ok m = true ->
+  resolve_here m = true -> unlocked_here m = true -> synced_here m = true ->
+  (forall k, In k (nkids m) -> allb resolve_here k = true) ->
+  adopt m = Ok (adopted m).
+Proof.
+  intros Hw Ho Hr Hu Hs Hrk.
+  destruct (wfb_parts _ Hw) as [Wk [Lk [Nk [Sk Ek]]]].
+  destruct (level_keys _ Lk) as [Ndi [Ndo _]].
+  unfold own_ok in Ho. apply andb_true_iff in Ho. destruct Ho as [Oi Oo]. apply nodupb_s in Oi, Oo.
+  set (n0 := Node (nlab m) (nkind m) (ncls m) (nfailed m) (nrunning m) (drop_live (nexe m))
+                  (nins m) (nouts m) (nsin m) (nsout m) (map clear_own (nkids m)) (nstart m) (nprov m)).
+  assert (Hlev : forall il ol,
+            (is_linked (nkind m) = true -> il = il_of (nins m) /\ ol = olinks_of (nkids m)) ->
+            setstate_level n0 (if is_comp (nkind m) then pairs (din (nkids m)) else [])
+                           (if is_comp (nkind m) then pairs (sinv (nkids m)) else []) il ol = Ok (adopted m)).
+  { intros il ol Hil. unfold setstate_level. change (nkind n0) with (nkind m).
+    change (nkids n0) with (map clear_own (nkids m)). change (nstart n0) with (nstart m).
+    destruct (is_comp (nkind m)) eqn:Ec.
+    2:{ unfold n0, adopted. rewrite (Ek eq_refl). reflexivity. }
+    assert (Hst : forallb (fun l => match findn l (map clear_own (nkids m)) with Some _ => true | None => false end) (nstart m) = true).
+    { apply forallb_forall. intros l Hl. rewrite findn_map by reflexivity.
+      destruct (findn_mem _ _ (Sk l Hl)) as [k ->]. reflexivity. }
+    rewrite Hst.
+    destruct (@relink_level (nkids m) (map clear_own (nkids m)) Lk) as [K1 [R1 R2]].
+    - rewrite map_map. apply map_ext. intros k. unfold clear_own. cbn. rewrite !map_map. reflexivity.
+    - rewrite <- put_empty, din_put. apply keys_refill.
+    - rewrite <- put_empty, dout_put. apply keys_refill.
+    - rewrite <- put_empty, sinv_put. apply keys_refill.
+    - rewrite <- put_empty, soutv_put. apply keys_refill.
+    - rewrite R1, R2. rewrite <- put_empty, put_put. fold (relevel (nkids m)).
+      change (set_nkids n0 (relevel (nkids m))) with (adopted m).
+      destruct (is_linked (nkind m)) eqn:El; [|reflexivity].
+      destruct (Hil eq_refl) as [-> ->].
+      assert (Xk : forall c x, findn c (nkids m) = Some x ->
+                   findn c (relevel (nkids m)) =
+                   Some (putk (look (din (nkids m))) (canon (din (nkids m))) (fun i => rev (look (sinv (nkids m)) i))
+                              (fun o => rev (canon (sinv (nkids m)) o)) x)).
+      { intros c x F. unfold relevel, put. rewrite findn_map by reflexivity. rewrite F. reflexivity. }
+      rewrite forge_ins_idem.
+      + apply forge_outs_idem.
+        * exact Oo.
+        * change (nkids (adopted m)) with (relevel (nkids m)). rewrite relevel_putk_lab. exact Nk.
+        * change (nkids (adopted m)) with (relevel (nkids m)). intros x Hx. unfold relevel, put in Hx.
+          apply in_map_iff in Hx. destruct Hx as [k [<- Hk]]. unfold putk. cbn [nouts]. rewrite map_map.
+          eapply kid_outs_nodup; eauto.
+        * intros [[kc cl] out] Hlk. cbn [fst snd]. apply in_olinks in Hlk.
+          destruct Hlk as [k [c [Hk [Hc [Ekey Rl]]]]]. inversion Ekey; subst kc cl.
+          unfold resolve_here in Hr. rewrite El in Hr. apply andb_true_iff in Hr. destruct Hr as [_ Hr].
+          pose proof (forallb_In _ _ _ (forallb_In _ _ _ Hr Hk) Hc) as R0. cbn in R0.
+          unfold synced_here in Hs. apply andb_true_iff in Hs. destruct Hs as [_ Hs].
+          pose proof (forallb_In _ _ _ (forallb_In _ _ _ Hs Hk) Hc) as S0. cbn in S0.
+          destruct (drcv c) as [| |o] eqn:Er; cbn in Rl; try discriminate. inversion Rl; subst o.
+          unfold has_d in R0. destruct (findd out (nouts m)) as [c'|] eqn:Fo; [|discriminate].
+          apply slot_eqb_true in S0.
+          eexists _, _, c'. change (nkids (adopted m)) with (relevel (nkids m)).
+          split; [apply Xk; apply findn_nodup; eauto|].
+          split; [unfold putk; cbn [nouts]; rewrite findd_map by reflexivity;
+                  rewrite (findd_nodup _ _ (kid_outs_nodup _ _ Ndo Hk) Hc); reflexivity|].
+          cbn [set_dcon drcv dval]. repeat split; auto.
+      + exact Oi.
+      + intros lk Hlk. unfold il_of in Hlk. apply in_map_iff in Hlk. destruct Hlk as [c [<- Hc]]. cbn [fst snd].
+        unfold resolve_here in Hr. rewrite El in Hr. apply andb_true_iff in Hr. destruct Hr as [Hr _].
+        pose proof (forallb_In _ _ _ Hr Hc) as R. cbn in R.
+        destruct (drcv c) as [|k l|] eqn:Er; try discriminate. cbn [fst snd].
+        unfold has_in in R. destruct (findn k (nkids m)) as [k0|] eqn:Fk; [|discriminate].
+        destruct (findd l (nins k0)) as [c0|] eqn:Fc; [|discriminate].
+        pose proof (findn_In _ _ Fk) as [Hk0 _].
+        eexists c, _, (set_dcon c0 _). change (nins (adopted m)) with (nins m).
+        change (nkids (adopted m)) with (relevel (nkids m)).
+        split; [apply findd_nodup; auto|]. split; [exact Er|]. split; [apply Xk; exact Fk|].
+        split; [unfold putk; cbn [nins]; rewrite findd_map by reflexivity; rewrite Fc; reflexivity|].
+        eapply push_quiet.
+        * rewrite (allb_putk insokb insok_putk). apply wfb_insok; [exact (forallb_In _ _ _ Wk Hk0)|].
+          unfold insokb. apply nodupb_s. eapply kid_ins_nodup; eauto.
+        * rewrite (allb_putk resolve_here resolve_putk). apply Hrk. exact Hk0.
+        * unfold putk. cbn [nins]. rewrite findd_map by reflexivity. rewrite Fc. reflexivity.
+        * rewrite chain_putk. unfold quiet.
+          unfold unlocked_here in Hu. pose proof (forallb_In _ _ _ Hu Hc) as U. cbn in U. rewrite Er in U.
+          unfold synced_here in Hs. apply andb_true_iff in Hs. destruct Hs as [Hs _].
+          pose proof (forallb_In _ _ _ Hs Hc) as S. cbn in S. rewrite Er in S.
+          unfold chain_kid in U, S. rewrite Fk in U, S.
+          apply forallb_forall. intros h Hh. rewrite (forallb_In _ _ _ U Hh), (forallb_In _ _ _ S Hh). reflexivity. }
+  unfold adopt. fold n0. destruct (is_linked (nkind m)) eqn:El.
+  - rewrite ilinks_of_ok.
+    + apply Hlev. auto.
+    + intros c Hc. unfold resolve_here in Hr. rewrite El in Hr. apply andb_true_iff in Hr. destruct Hr as [Hr _].
+      pose proof (forallb_In _ _ _ Hr Hc) as R. cbn in R. destruct (drcv c) as [|k l|]; try discriminate. eauto.
+  - apply Hlev. discriminate.
+Qed.
+
+Lemma relevel_tables K : level_ok K = true ->
+  din (relevel K) = din K /\ tperm (dout K) (dout (relevel K)) /\
+  tperm (sinv K) (sinv (relevel K)) /\ tperm (soutv K) (soutv (relevel K)).
+Proof.
+  intros Lk. destruct (level_ok_spec _ Lk) as [[Tdi [Tdo [Tsi Tso]]] [[Sd1 Sd2] [Ss1 Ss2]]].
+  destruct (level_keys _ Lk) as [Ndi [Ndo [Nsi Nso]]].
+  unfold relevel. rewrite din_put, dout_put, sinv_put, soutv_put. repeat split.
+  - apply refill_look. exact Ndi.
+  - apply tperm_refill_l. intros k l Hin. exact (@perm_canon (din K) (dout K) k l Tdi Tdo Sd1 Sd2 Hin).
+  - apply tperm_refill_l. intros k l Hin. rewrite (look_In _ _ _ Nsi Hin). apply Permutation_rev.
+  - apply tperm_refill_l. intros k l Hin. eapply Permutation_trans;
+      [exact (@perm_canon (sinv K) (soutv K) k l Tsi Tso Ss1 Ss2 Hin) | apply Permutation_rev].
+Qed.
+
+Lemma forall2_putk A B f1 f2 f3 f4 :
+  Forall2 same A B -> Forall2 same A (map (putk f1 f2 f3 f4) B).
+Proof. induction 1; cbn [map]; constructor; auto. apply same_putk. assumption. Qed.
+
+Lemma same_adopted a m : same a m -> level_ok (nkids m) = true -> same a (adopted m).
+Proof.
+  intros S Lk. destruct (relevel_tables _ Lk) as [D [T1 [T2 T3]]].
+  rewrite same_eq in *. unfold adopted.
+  cbn [nlab nkind ncls nfailed nrunning nexe nins nouts nsin nsout nkids nstart nprov].
+  destruct S as [A1 [A2 [A3 [A4 [A5 [A6 [A7 [A8 [A9 [A10 [A11 [A12 [A13 [A14 [A15 [A16 A17]]]]]]]]]]]]]]]].
+  repeat split; auto.
+  - rewrite <- A6. destruct (nexe a); reflexivity.
+  - unfold relevel, put. apply forall2_putk. exact A11.
+  - rewrite D. exact A12.
+  - eapply tperm_trans; eauto.
+  - eapply tperm_trans; eauto.
+  - eapply tperm_trans; eauto.
+Qed.
+
+Lemma adopted_no_own m : no_own_conns m -> no_own_conns (adopted m).
+Proof. intros H. exact H. Qed.
+
+Theorem trip_file_exact c n :
+  wfb n = true -> own_ok n = true ->
+  links_resolve n = true -> links_unlocked n = true -> links_synced n = true -> cown c = true ->
+  trip_file (c, n) = Ok (mkC None (root_det c) false, adopted (ref n)).
+Proof.
+  intros Hw Ho Hr Hu Hs Hc. unfold trip_file. rewrite trip_pickle_exact; auto.
+  assert (Hr' : links_resolve (ref n) = true) by (unfold links_resolve; rewrite resolve_ref; exact Hr).
+  assert (Hu' : links_unlocked (ref n) = true) by (unfold links_unlocked; rewrite unlocked_ref; exact Hu).
+  assert (Hs' : links_synced (ref n) = true) by (unfold links_synced; rewrite synced_ref; exact Hs).
+  unfold links_resolve, links_unlocked, links_synced in Hr', Hu', Hs'. rewrite allb_eq in Hr', Hu', Hs'.
+  apply andb_true_iff in Hr', Hu', Hs'. destruct Hr' as [R1 R2], Hu' as [U1 _], Hs' as [S1 _].
+  rewrite adopt_exact; auto.
+  - apply wfb_ref; exact Hw.
+  - rewrite own_ok_ref; exact Ho.
+  - intros k Hk. exact (forallb_In _ _ _ R2 Hk).
+Qed.
+
+(* =================================================================== 13c. every graph built by the operations is well formed *)
+Definition oview (k : node) :=
+  (nlab k, map (fun c => (dlab c, dcon c)) (nins k), map (fun c => (dlab c, dcon c)) (nouts k),
+   map (fun c => (slab c, scon c)) (nsin k), map (fun c => (slab c, scon c)) (nsout k)).
+
+Lemma oview_tables K K' : map oview K = map oview K' ->
+  din K = din K' /\ dout K = dout K' /\ sinv K = sinv K' /\ soutv K = soutv K' /\ map nlab K = map nlab K'.
+Proof.
+  revert K'. induction K as [|k r IH]; intros [|k' r'] H; try discriminate.
+  - repeat split.
+  - cbn [map] in H.
+    pose proof (f_equal (fun l => hd (oview k) l) H) as H1. cbn [hd] in H1.
+    pose proof (f_equal (@tl _) H) as H2. cbn [tl] in H2.
+    destruct (IH _ H2) as [A [B [C [D E]]]].
+    unfold oview in H1. injection H1 as L I O SI SO.
+    unfold din, dout, sinv, soutv in *. cbn [flat_map map]. rewrite A, B, C, D, E, L.
+    assert (X : forall (la lb : string) (a b : list dchan),
+               map (fun c => (dlab c, dcon c)) a = map (fun c => (dlab c, dcon c)) b ->
+               map (fun c => ((la, dlab c), dcon c)) a = map (fun c => ((la, dlab c), dcon c)) b).
+    { intros la lb a. induction a as [|x t IHt]; intros [|y u] Hm; try discriminate; [reflexivity|].
+      cbn [map] in *. injection Hm as M1 M2 M3. rewrite M1, M2. f_equal. apply IHt. exact M3. }
+    assert (Y : forall (la : string) (a b : list schan),
+               map (fun c => (slab c, scon c)) a = map (fun c => (slab c, scon c)) b ->
+               map (fun c => ((la, slab c), scon c)) a = map (fun c => ((la, slab c), scon c)) b).
+    { intros la a. induction a as [|x t IHt]; intros [|y u] Hm; try discriminate; [reflexivity|].
+      cbn [map] in *. injection Hm as M1 M2 M3. rewrite M1, M2. f_equal. apply IHt. exact M3. }
+    rewrite (X (nlab k') (nlab k') _ _ I), (X (nlab k') (nlab k') _ _ O), (Y (nlab k') _ _ SI), (Y (nlab k') _ _ SO).
+    repeat split; reflexivity.
+Qed.
+
+Lemma level_ok_oview K K' : map oview K = map oview K' -> level_ok K = level_ok K'.
+Proof. intros H. destruct (oview_tables _ _ H) as [A [B [C [D _]]]]. unfold level_ok. rewrite A, B, C, D. reflexivity. Qed.
+
+Lemma oview_set_nkids n x : oview (set_nkids n x) = oview n. Proof. destruct n; reflexivity. Qed.
+
+Lemma at_path_pres f :
+  (forall m, wfb m = true -> wfb (f m) = true) -> (forall m, oview (f m) = oview m) ->
+  forall path n, wfb n = true -> wfb (at_path path f n) = true /\ oview (at_path path f n) = oview n.
+Proof.
+  intros Hf Ho. induction path as [|l r IH]; intros n Hw; cbn [at_path]; [split; auto|].
+  split; [|apply oview_set_nkids].
+  destruct (wfb_parts _ Hw) as [Wk [Lk [Nk [Sk Ek]]]].
+  set (g := fun k => if String.eqb (nlab k) l then at_path r f k else k).
+  assert (G : forall k, In k (nkids n) -> wfb (g k) = true /\ oview (g k) = oview k).
+  { intros k Hk. unfold g. destruct (String.eqb (nlab k) l); [|split; [exact (forallb_In _ _ _ Wk Hk)|reflexivity]].
+    apply IH. exact (forallb_In _ _ _ Wk Hk). }
+  assert (Ov : map oview (map g (nkids n)) = map oview (nkids n)).
+  { rewrite map_map. apply map_ext_in. intros k Hk. apply G. exact Hk. }
+  rewrite wfb_eq. replace (nkids (set_nkids n (map g (nkids n)))) with (map g (nkids n)) by (destruct n; reflexivity).
+  replace (nstart (set_nkids n (map g (nkids n)))) with (nstart n) by (destruct n; reflexivity).
+  replace (nkind (set_nkids n (map g (nkids n)))) with (nkind n) by (destruct n; reflexivity).
+  destruct (oview_tables _ _ Ov) as [_ [_ [_ [_ Lab]]]]. rewrite Lab, (level_ok_oview _ _ Ov), Lk.
+  rewrite !andb_true_iff. repeat split.
+  - rewrite forallb_map. apply forallb_forall. intros k Hk. apply G. exact Hk.
+  - apply nodupb_s. exact Nk.
+  - apply forallb_forall. intros x Hx. apply mems_In. apply Sk. exact Hx.
+  - destruct (is_comp (nkind n)) eqn:Ec; [reflexivity|]. rewrite (Ek eq_refl). reflexivity.
+Qed.
+
+(* a composite is the put of its own tables *)
+Lemma self_put K : NoDup (keys (din K)) -> NoDup (keys (dout K)) -> NoDup (keys (sinv K)) -> NoDup (keys (soutv K)) ->
+  put (look (din K)) (look (dout K)) (look (sinv K)) (look (soutv K)) K = K.
+Proof.
+  intros A B C D. unfold put. transitivity (map (fun x : node => x) K); [|apply map_id].
+  apply map_ext_in. intros k Hk. unfold putk.
+  transitivity (Node (nlab k) (nkind k) (ncls k) (nfailed k) (nrunning k) (nexe k) (nins k) (nouts k) (nsin k) (nsout k)
+                     (nkids k) (nstart k) (nprov k)); [|symmetry; apply node_eta].
+  f_equal.
+  - rewrite <- (map_id (nins k)) at 2. apply map_ext_in. intros c Hc.
+    rewrite (@look_In (din K) (nlab k, dlab c) (dcon c) A); [destruct c; reflexivity|].
+    unfold din. apply in_flat_map. exists k. split; [exact Hk|]. apply in_map_iff. exists c. auto.
+  - rewrite <- (map_id (nouts k)) at 2. apply map_ext_in. intros c Hc.
+    rewrite (@look_In (dout K) (nlab k, dlab c) (dcon c) B); [destruct c; reflexivity|].
+    unfold dout. apply in_flat_map. exists k. split; [exact Hk|]. apply in_map_iff. exists c. auto.
+  - rewrite <- (map_id (nsin k)) at 2. apply map_ext_in. intros c Hc.
+    rewrite (@look_In (sinv K) (nlab k, slab c) (scon c) C); [destruct c; reflexivity|].
+    unfold sinv. apply in_flat_map. exists k. split; [exact Hk|]. apply in_map_iff. exists c. auto.
+  - rewrite <- (map_id (nsout k)) at 2. apply map_ext_in. intros c Hc.
+    rewrite (@look_In (soutv K) (nlab k, slab c) (scon c) D); [destruct c; reflexivity|].
+    unfold soutv. apply in_flat_map. exists k. split; [exact Hk|]. apply in_map_iff. exists c. auto.
+Qed.
+
+Definition rmf (f : cref -> list cref) (i o : cref) (x : cref) : list cref :=
+  if cref_eqb x i then remove1 cref_eqb o (f x) else f x.
+
+(* the two sides of a table pair after one edit at (i, o) keep the invariant *)
+Lemma in_remove1 x y (l : list cref) : In x (remove1 cref_eqb y l) -> In x l.
+Proof.
+  induction l as [|z r IH]; cbn [remove1]; [tauto|]. destruct (cref_eqb y z); [intros H; right; exact H|].
+  intros [H|H]; [left; exact H | right; auto].
+Qed.
+Lemma in_remove1_neq x y (l : list cref) : x <> y -> In x l -> In x (remove1 cref_eqb y l).
+Proof.
+  intros Hn. induction l as [|z r IH]; cbn [remove1]; [tauto|]. destruct (cref_eqb y z) eqn:E.
+  - apply cref_eqb_eq in E; subst z. intros [H|H]; [congruence|exact H].
+  - intros [H|H]; [left; exact H | right; auto].
+Qed.
+Lemma nodup_remove1 y (l : list cref) : NoDup l -> NoDup (remove1 cref_eqb y l).
+Proof.
+  induction 1 as [|z r Hz Hn IH]; cbn [remove1]; [constructor|]. destruct (cref_eqb y z); [exact Hn|].
+  constructor; [|exact IH]. intros H. apply Hz. eapply in_remove1; eauto.
+Qed.
+Lemma notin_remove1 y (l : list cref) : NoDup l -> ~ In y (remove1 cref_eqb y l).
+Proof.
+  induction 1 as [|z r Hz Hn IH]; cbn [remove1]; [tauto|]. destruct (cref_eqb y z) eqn:E.
+  - apply cref_eqb_eq in E; subst z. exact Hz.
+  - intros [H|H]; [subst; rewrite cref_eqb_refl in E; discriminate | auto].
+Qed.
+
+Section EditPair.
+  Variables (E F : table) (i o : cref).
+  Hypothesis TE : table_ok E = true.
+  Hypothesis TF : table_ok F = true.
+  Hypothesis S1 : sym_half E F = true.
+  Hypothesis S2 : sym_half F E = true.
+
+  Lemma look_entry T k l : NoDup (keys T) -> In (k, l) T -> look T k = l.
+  Proof. apply look_In. Qed.
+
+  Lemma edit_ok (ge gf : list cref -> list cref) :
+    NoDup (ge (look E i)) -> NoDup (gf (look F o)) ->
+    (* membership after the edit *)
+    (forall x, In x (ge (look E i)) <-> (In x (look E i) /\ x <> o) \/ (x = o /\ In o (ge (look E i)))) ->
+    (forall x, In x (gf (look F o)) <-> (In x (look F o) /\ x <> i) \/ (x = i /\ In i (gf (look F o)))) ->
+    (In o (ge (look E i)) <-> In i (gf (look F o))) ->
+    has_key E i = true -> has_key F o = true ->
+    let E' := refill (fun x => if cref_eqb x i then ge (look E x) else look E x) E in
+    let F' := refill (fun x => if cref_eqb x o then gf (look F x) else look F x) F in
+    table_ok E' = true /\ table_ok F' = true /\ sym_half E' F' = true /\ sym_half F' E' = true.
+  Proof.
+    intros Ge Gf Me Mf Mx Ki Ko E' F'.
+    apply table_ok_spec in TE, TF. destruct TE as [NE LE], TF as [NF LF].
+    rewrite sym_half_spec in S1, S2.
+    assert (LkE : forall k l, In (k, l) E -> look E k = l) by (intros; apply look_In; auto).
+    assert (LkF : forall k l, In (k, l) F -> look F k = l) by (intros; apply look_In; auto).
+    assert (KE : forall k, In k (keys E) -> exists l, In (k, l) E).
+    { intros k Hk. unfold keys in Hk. apply in_map_iff in Hk. destruct Hk as [[k' l] [<- H]]. eauto. }
+    assert (KF : forall k, In k (keys F) -> exists l, In (k, l) F).
+    { intros k Hk. unfold keys in Hk. apply in_map_iff in Hk. destruct Hk as [[k' l] [<- H]]. eauto. }
+    repeat split.
+    - apply table_ok_spec. unfold E'. rewrite keys_refill. split; [exact NE|].
+      intros [k l] H. apply in_refill in H. destruct H as [-> Hk]. cbn [snd].
+      destruct (KE k Hk) as [l0 Hl0].
+      destruct (cref_eqb k i) eqn:Eki; [apply cref_eqb_eq in Eki; subst k; exact Ge|].
+      rewrite (LkE _ _ Hl0). exact (LE _ Hl0).
+    - apply table_ok_spec. unfold F'. rewrite keys_refill. split; [exact NF|].
+      intros [k l] H. apply in_refill in H. destruct H as [-> Hk]. cbn [snd].
+      destruct (KF k Hk) as [l0 Hl0].
+      destruct (cref_eqb k o) eqn:Eko; [apply cref_eqb_eq in Eko; subst k; exact Gf|].
+      rewrite (LkF _ _ Hl0). exact (LF _ Hl0).
+    - apply sym_half_spec. intros k l x Hkl Hx. unfold E' in Hkl. apply in_refill in Hkl. destruct Hkl as [-> Hk].
+      destruct (KE k Hk) as [l0 Hl0].
+      assert (Hx0 : (In x l0 /\ ~ (k = i /\ x = o)) \/ (k = i /\ x = o /\ In o (ge (look E i)))).
+      { destruct (cref_eqb k i) eqn:Eki.
+        - apply cref_eqb_eq in Eki. subst k. rewrite (LkE _ _ Hl0) in *. apply Me in Hx.
+          destruct Hx as [[A B]|[A B]]; [left; split; [exact A|intros [_ C]; contradiction] | right; auto].
+        - rewrite (LkE _ _ Hl0) in Hx. left. split; [exact Hx|]. apply cref_eqb_neq in Eki. intros [C _]; contradiction. }
+      unfold F'. rewrite assoc_refill.
+      destruct Hx0 as [[A B]|[A [B C]]].
+      + destruct (S1 _ _ _ Hl0 A) as [l' [P Q]]. unfold has_key. rewrite P. eexists. split; [reflexivity|].
+        pose proof (assoc_Some_In _ _ P) as Pin. rewrite (LkF _ _ Pin).
+        destruct (cref_eqb x o) eqn:Exo; [|exact Q]. apply cref_eqb_eq in Exo. subst x.
+        rewrite <- (LkF _ _ Pin). apply Mf. left. split; [rewrite (LkF _ _ Pin); exact Q|].
+        intros ->. apply B. auto.
+      + subst k x. rewrite Ko. eexists. split; [reflexivity|]. rewrite cref_eqb_refl. apply Mx. exact C.
+    - apply sym_half_spec. intros k l x Hkl Hx. unfold F' in Hkl. apply in_refill in Hkl. destruct Hkl as [-> Hk].
+      destruct (KF k Hk) as [l0 Hl0].
+      assert (Hx0 : (In x l0 /\ ~ (k = o /\ x = i)) \/ (k = o /\ x = i /\ In i (gf (look F o)))).
+      { destruct (cref_eqb k o) eqn:Eko.
+        - apply cref_eqb_eq in Eko. subst k. rewrite (LkF _ _ Hl0) in *. apply Mf in Hx.
+          destruct Hx as [[A B]|[A B]]; [left; split; [exact A|intros [_ C]; contradiction] | right; auto].
+        - rewrite (LkF _ _ Hl0) in Hx. left. split; [exact Hx|]. apply cref_eqb_neq in Eko. intros [C _]; contradiction. }
+      unfold E'. rewrite assoc_refill.
+      destruct Hx0 as [[A B]|[A [B C]]].
+      + destruct (S2 _ _ _ Hl0 A) as [l' [P Q]]. unfold has_key. rewrite P. eexists. split; [reflexivity|].
+        pose proof (assoc_Some_In _ _ P) as Pin. rewrite (LkE _ _ Pin).
+        destruct (cref_eqb x i) eqn:Exi; [|exact Q]. apply cref_eqb_eq in Exi. subst x.
+        rewrite <- (LkE _ _ Pin). apply Me. left. split; [rewrite (LkE _ _ Pin); exact Q|].
+        intros ->. apply B. auto.
+      + subst k x. rewrite Ki. eexists. split; [reflexivity|]. rewrite cref_eqb_refl. apply Mx. exact C.
+  Qed.
+End EditPair.
+
+(* ---- connect / disconnect on the tables ---- *)
+Lemma put_disc_d fi fo gi go K i o :
+  disc_d (put fi fo gi go K) i o = put (rmf fi i o) (rmf fo o i) gi go K.
+Proof.
+  unfold disc_d, put. rewrite map_map. apply map_ext. intros k. destruct i as [i1 i2], o as [o1 o2].
+  cbn [fst snd]. unfold rm_con.
+  transitivity (Node (nlab k) (nkind k) (ncls k) (nfailed k) (nrunning k) (nexe k)
+                     (map (fun c => set_dcon c (rmf fi (i1, i2) (o1, o2) (nlab k, dlab c))) (nins k))
+                     (map (fun c => set_dcon c (rmf fo (o1, o2) (i1, i2) (nlab k, dlab c))) (nouts k))
+                     (map (fun c => set_scon c (gi (nlab k, slab c))) (nsin k))
+                     (map (fun c => set_scon c (go (nlab k, slab c))) (nsout k))
+                     (nkids k) (nstart k) (nprov k)); [|reflexivity].
+  cbn [putk nlab]. destruct (String.eqb (nlab k) i1) eqn:E1;
+    [replace (nlab (set_nins (putk fi fo gi go k) (map (fun c => if String.eqb (dlab c) i2 then set_dcon c (remove1 cref_eqb (o1, o2) (dcon c)) else c) (nins (putk fi fo gi go k))))) with (nlab k) by reflexivity|];
+    destruct (String.eqb (nlab k) o1) eqn:E2;
+    unfold set_nouts, set_nins, putk;
+    cbn [nlab nkind ncls nfailed nrunning nexe nins nouts nsin nsout nkids nstart nprov];
+    rewrite ?E2;
+    cbn [nlab nkind ncls nfailed nrunning nexe nins nouts nsin nsout nkids nstart nprov];
+    f_equal; rewrite ?map_map; apply map_ext; intros c; unfold rmf; rewrite !cref_pair_eqb, ?E1, ?E2;
+    cbn [set_dcon dlab dcon andb];
+    try (destruct (String.eqb (dlab c) i2)); try (destruct (String.eqb (dlab c) o2)); reflexivity.
+Qed.
+Lemma put_disc_s fi fo gi go K i o :
+  disc_s (put fi fo gi go K) i o = put fi fo (rmf gi i o) (rmf go o i) K.
+Proof.
+  unfold disc_s, put. rewrite map_map. apply map_ext. intros k. destruct i as [i1 i2], o as [o1 o2].
+  cbn [fst snd]. unfold rm_con.
+  transitivity (Node (nlab k) (nkind k) (ncls k) (nfailed k) (nrunning k) (nexe k)
+                     (map (fun c => set_dcon c (fi (nlab k, dlab c))) (nins k))
+                     (map (fun c => set_dcon c (fo (nlab k, dlab c))) (nouts k))
+                     (map (fun c => set_scon c (rmf gi (i1, i2) (o1, o2) (nlab k, slab c))) (nsin k))
+                     (map (fun c => set_scon c (rmf go (o1, o2) (i1, i2) (nlab k, slab c))) (nsout k))
+                     (nkids k) (nstart k) (nprov k)); [|reflexivity].
+  cbn [putk nlab]. destruct (String.eqb (nlab k) i1) eqn:E1;
+    [replace (nlab (set_nsin (putk fi fo gi go k) (map (fun c => if String.eqb (slab c) i2 then set_scon c (remove1 cref_eqb (o1, o2) (scon c)) else c) (nsin (putk fi fo gi go k))))) with (nlab k) by reflexivity|];
+    destruct (String.eqb (nlab k) o1) eqn:E2;
+    unfold set_nsout, set_nsin, putk;
+    cbn [nlab nkind ncls nfailed nrunning nexe nins nouts nsin nsout nkids nstart nprov];
+    rewrite ?E2;
+    cbn [nlab nkind ncls nfailed nrunning nexe nins nouts nsin nsout nkids nstart nprov];
+    f_equal; rewrite ?map_map; apply map_ext; intros c; unfold rmf; rewrite !cref_pair_eqb, ?E1, ?E2;
+    cbn [set_scon slab scon andb];
+    try (destruct (String.eqb (slab c) i2)); try (destruct (String.eqb (slab c) o2)); reflexivity.
+Qed.
+
+Lemma level_ok_put fi fo gi go K :
+  table_ok (refill fi (din K)) = true -> table_ok (refill fo (dout K)) = true ->
+  table_ok (refill gi (sinv K)) = true -> table_ok (refill go (soutv K)) = true ->
+  sym_half (refill fi (din K)) (refill fo (dout K)) = true -> sym_half (refill fo (dout K)) (refill fi (din K)) = true ->
+  sym_half (refill gi (sinv K)) (refill go (soutv K)) = true -> sym_half (refill go (soutv K)) (refill gi (sinv K)) = true ->
+  level_ok (put fi fo gi go K) = true.
+Proof.
+  intros. unfold level_ok. rewrite din_put, dout_put, sinv_put, soutv_put.
+  rewrite !andb_true_iff. repeat split; assumption.
+Qed.
+
+Lemma has_key_look_in (E : table) k : NoDup (keys E) -> has_key E k = true -> In (k, look E k) E.
+Proof.
+  intros Hn H. unfold has_key in H. destruct (assoc cref_eqb k E) as [l|] eqn:A; [|discriminate].
+  unfold look. rewrite A. apply assoc_Some_In. exact A.
+Qed.
+
+Lemma sym_notin (E F : table) i o :
+  table_ok F = true -> sym_half F E = true -> has_key E i = true -> NoDup (keys E) ->
+  ~ In o (look E i) -> ~ In i (look F o).
+Proof.
+  intros TF S2 Ki NE Hn Hin. apply table_ok_spec in TF. destruct TF as [NF _]. rewrite sym_half_spec in S2.
+  destruct (has_key F o) eqn:Ko.
+  - pose proof (@has_key_look_in _ _ NF Ko) as Ho. destruct (S2 _ _ _ Ho Hin) as [l' [A B]].
+    apply Hn. unfold look. rewrite A. exact B.
+  - rewrite look_nokey in Hin; [contradiction|]. intros H. apply has_key_In in H. congruence.
+Qed.
+
+Lemma connect_d_level K i o K' : level_ok K = true -> connect_d K (i, o) = Ok K' -> level_ok K' = true.
+Proof.
+  intros Lk. destruct (level_ok_spec _ Lk) as [[Tdi [Tdo [Tsi Tso]]] [[Sd1 Sd2] [Ss1 Ss2]]].
+  destruct (level_keys _ Lk) as [Ndi [Ndo [Nsi Nso]]].
+  unfold connect_d. cbn [fst snd].
+  destruct (assoc cref_eqb i (din K)) as [ci|] eqn:Ai; [|discriminate].
+  destruct (assoc cref_eqb o (dout K)) as [co|] eqn:Ao; [|discriminate].
+  destruct (memb cref_eqb o ci) eqn:M; intros H; inversion H; subst K'; [exact Lk|].
+  assert (Ki : has_key (din K) i = true) by (unfold has_key; rewrite Ai; reflexivity).
+  assert (Ko : has_key (dout K) o = true) by (unfold has_key; rewrite Ao; reflexivity).
+  assert (Li : look (din K) i = ci) by (unfold look; rewrite Ai; reflexivity).
+  apply memb_nIn_c in M.
+  assert (Mi : ~ In o (look (din K) i)) by (rewrite Li; exact M).
+  assert (Mo : ~ In i (look (dout K) o)) by (eapply sym_notin; eauto).
+  rewrite <- (@self_put _ Ndi Ndo Nsi Nso) at 1. rewrite put_upd_din, put_upd_dout.
+  apply table_ok_spec in Tdi as Tdi', Tdo as Tdo'. destruct Tdi' as [_ Ldi], Tdo' as [_ Ldo].
+  destruct (@edit_ok (din K) (dout K) i o Tdi Tdo Sd1 Sd2 (cons o) (cons i)) as [A1 [A2 [A3 A4]]]; auto.
+  - constructor; [exact Mi|]. exact (Ldi _ (@has_key_look_in _ _ Ndi Ki)).
+  - constructor; [exact Mo|]. exact (Ldo _ (@has_key_look_in _ _ Ndo Ko)).
+  - intros x. cbn [In]. split.
+    + intros [<-|Hx]; [right; auto | left; split; [exact Hx|]]. intros ->. contradiction.
+    + intros [[Hx _]|[-> _]]; auto.
+  - intros x. cbn [In]. split.
+    + intros [<-|Hx]; [right; auto | left; split; [exact Hx|]]. intros ->. contradiction.
+    + intros [[Hx _]|[-> _]]; auto.
+  - cbn [In]. tauto.
+  - apply level_ok_put; try assumption.
+    + rewrite (@refill_look _ Nsi). exact Tsi.
+    + rewrite (@refill_look _ Nso). exact Tso.
+    + rewrite (@refill_look _ Nsi), (@refill_look _ Nso). exact Ss1.
+    + rewrite (@refill_look _ Nsi), (@refill_look _ Nso). exact Ss2.
+Qed.
+
+Lemma connect_s_level K i o K' : level_ok K = true -> connect_s K (i, o) = Ok K' -> level_ok K' = true.
+Proof.
+  intros Lk. destruct (level_ok_spec _ Lk) as [[Tdi [Tdo [Tsi Tso]]] [[Sd1 Sd2] [Ss1 Ss2]]].
+  destruct (level_keys _ Lk) as [Ndi [Ndo [Nsi Nso]]].
+  unfold connect_s. cbn [fst snd].
+  destruct (assoc cref_eqb i (sinv K)) as [ci|] eqn:Ai; [|discriminate].
+  destruct (assoc cref_eqb o (soutv K)) as [co|] eqn:Ao; [|discriminate].
+  destruct (memb cref_eqb o ci) eqn:M; intros H; inversion H; subst K'; [exact Lk|].
+  assert (Ki : has_key (sinv K) i = true) by (unfold has_key; rewrite Ai; reflexivity).
+  assert (Ko : has_key (soutv K) o = true) by (unfold has_key; rewrite Ao; reflexivity).
+  assert (Li : look (sinv K) i = ci) by (unfold look; rewrite Ai; reflexivity).
+  apply memb_nIn_c in M.
+  assert (Mi : ~ In o (look (sinv K) i)) by (rewrite Li; exact M).
+  assert (Mo : ~ In i (look (soutv K) o)) by (eapply sym_notin; eauto).
+  rewrite <- (@self_put _ Ndi Ndo Nsi Nso) at 1. rewrite put_upd_sin, put_upd_sout.
+  apply table_ok_spec in Tsi as Tsi', Tso as Tso'. destruct Tsi' as [_ Lsi], Tso' as [_ Lso].
+  destruct (@edit_ok (sinv K) (soutv K) i o Tsi Tso Ss1 Ss2 (cons o) (cons i)) as [A1 [A2 [A3 A4]]]; auto.
+  - constructor; [exact Mi|]. exact (Lsi _ (@has_key_look_in _ _ Nsi Ki)).
+  - constructor; [exact Mo|]. exact (Lso _ (@has_key_look_in _ _ Nso Ko)).
+  - intros x. cbn [In]. split.
+    + intros [<-|Hx]; [right; auto | left; split; [exact Hx|]]. intros ->. contradiction.
+    + intros [[Hx _]|[-> _]]; auto.
+  - intros x. cbn [In]. split.
+    + intros [<-|Hx]; [right; auto | left; split; [exact Hx|]]. intros ->. contradiction.
+    + intros [[Hx _]|[-> _]]; auto.
+  - cbn [In]. tauto.
+  - apply level_ok_put; try assumption.
+    + rewrite (@refill_look _ Ndi). exact Tdi.
+    + rewrite (@refill_look _ Ndo). exact Tdo.
+    + rewrite (@refill_look _ Ndi), (@refill_look _ Ndo). exact Sd1.
+    + rewrite (@refill_look _ Ndi), (@refill_look _ Ndo). exact Sd2.
+Qed.
+
+Lemma remove_mem (L : list cref) y : NoDup L ->
+  forall x, In x (remove1 cref_eqb y L) <-> (In x L /\ x <> y) \/ (x = y /\ In y (remove1 cref_eqb y L)).
+Proof.
+  intros Hn x. split.
+  - intros Hx. left. split; [eapply in_remove1; eauto|]. intros ->. exact (notin_remove1 y Hn Hx).
+  - intros [[Hx Hne]|[-> Hy]]; [apply in_remove1_neq; auto | exact Hy].
+Qed.
+
+Lemma disc_d_level K i o :
+  level_ok K = true -> has_key (din K) i = true -> has_key (dout K) o = true -> level_ok (disc_d K i o) = true.
+Proof.
+  intros Lk Ki Ko. destruct (level_ok_spec _ Lk) as [[Tdi [Tdo [Tsi Tso]]] [[Sd1 Sd2] [Ss1 Ss2]]].
+  destruct (level_keys _ Lk) as [Ndi [Ndo [Nsi Nso]]].
+  rewrite <- (@self_put _ Ndi Ndo Nsi Nso) at 1. rewrite put_disc_d.
+  apply table_ok_spec in Tdi as Tdi', Tdo as Tdo'. destruct Tdi' as [_ Ldi], Tdo' as [_ Ldo].
+  pose proof (Ldi _ (@has_key_look_in _ _ Ndi Ki)) as Ni. pose proof (Ldo _ (@has_key_look_in _ _ Ndo Ko)) as No.
+  cbn [snd] in Ni, No.
+  destruct (@edit_ok (din K) (dout K) i o Tdi Tdo Sd1 Sd2 (remove1 cref_eqb o) (remove1 cref_eqb i)) as [A1 [A2 [A3 A4]]]; auto.
+  - apply nodup_remove1. exact Ni.
+  - apply nodup_remove1. exact No.
+  - apply remove_mem. exact Ni.
+  - apply remove_mem. exact No.
+  - split; intros H; exfalso; [exact (notin_remove1 o Ni H) | exact (notin_remove1 i No H)].
+  - apply level_ok_put; try assumption.
+    + rewrite (@refill_look _ Nsi). exact Tsi.
+    + rewrite (@refill_look _ Nso). exact Tso.
+    + rewrite (@refill_look _ Nsi), (@refill_look _ Nso). exact Ss1.
+    + rewrite (@refill_look _ Nsi), (@refill_look _ Nso). exact Ss2.
+Qed.
+Lemma disc_s_level K i o :
+  level_ok K = true -> has_key (sinv K) i = true -> has_key (soutv K) o = true -> level_ok (disc_s K i o) = true.
+Proof.
+  intros Lk Ki Ko. destruct (level_ok_spec _ Lk) as [[Tdi [Tdo [Tsi Tso]]] [[Sd1 Sd2] [Ss1 Ss2]]].
+  destruct (level_keys _ Lk) as [Ndi [Ndo [Nsi Nso]]].
+  rewrite <- (@self_put _ Ndi Ndo Nsi Nso) at 1. rewrite put_disc_s.
+  apply table_ok_spec in Tsi as Tsi', Tso as Tso'. destruct Tsi' as [_ Lsi], Tso' as [_ Lso].
+  pose proof (Lsi _ (@has_key_look_in _ _ Nsi Ki)) as Ni. pose proof (Lso _ (@has_key_look_in _ _ Nso Ko)) as No.
+  cbn [snd] in Ni, No.
+  destruct (@edit_ok (sinv K) (soutv K) i o Tsi Tso Ss1 Ss2 (remove1 cref_eqb o) (remove1 cref_eqb i)) as [A1 [A2 [A3 A4]]]; auto.
+  - apply nodup_remove1. exact Ni.
+  - apply nodup_remove1. exact No.
+  - apply remove_mem. exact Ni.
+  - apply remove_mem. exact No.
+  - split; intros H; exfalso; [exact (notin_remove1 o Ni H) | exact (notin_remove1 i No H)].
+  - apply level_ok_put; try assumption.
+    + rewrite (@refill_look _ Ndi). exact Tdi.
+    + rewrite (@refill_look _ Ndo). exact Tdo.
+    + rewrite (@refill_look _ Ndi), (@refill_look _ Ndo). exact Sd1.
+    + rewrite (@refill_look _ Ndi), (@refill_look _ Ndo). exact Sd2.
+Qed.
+
+(* ---- the operations ---- *)
+Lemma wfb_set_kids m K' :
+  wfb m = true -> forallb wfb K' = true -> level_ok K' = true -> map nlab K' = map nlab (nkids m) ->
+  wfb (set_nkids m K') = true.
+Proof.
+  intros Hw Wk Lk Lab. destruct (wfb_parts _ Hw) as [_ [_ [Nk [Sk Ek]]]].
+  rewrite wfb_eq. replace (nkids (set_nkids m K')) with K' by (destruct m; reflexivity).
+  replace (nstart (set_nkids m K')) with (nstart m) by (destruct m; reflexivity).
+  replace (nkind (set_nkids m K')) with (nkind m) by (destruct m; reflexivity).
+  rewrite Wk, Lk, Lab. rewrite !andb_true_iff. repeat split.
+  - apply nodupb_s. exact Nk.
+  - apply forallb_forall. intros x Hx. apply mems_In. apply Sk. exact Hx.
+  - destruct (is_comp (nkind m)) eqn:Ec; [reflexivity|]. rewrite (Ek eq_refl) in Lab.
+    destruct K'; [reflexivity|discriminate].
+Qed.
+
+Lemma put_wf fi fo gi go K : forallb wfb (put fi fo gi go K) = forallb wfb K.
+Proof. unfold put. rewrite forallb_map. apply forallb_ext_in. intros k _. apply putk_wfb. Qed.
+Lemma put_labs fi fo gi go K : map nlab (put fi fo gi go K) = map nlab K.
+Proof. unfold put. rewrite map_map. reflexivity. Qed.
+
+Lemma wfb_set_put m fi fo gi go :
+  wfb m = true -> level_ok (put fi fo gi go (nkids m)) = true -> wfb (set_nkids m (put fi fo gi go (nkids m))) = true.
+Proof.
+  intros Hw Lk. destruct (wfb_parts _ Hw) as [Wk _]. apply wfb_set_kids; auto.
+  - rewrite put_wf. exact Wk.
+  - apply put_labs.
+Qed.
+
+Lemma connect_d_wf m i o : wfb m = true ->
+  wfb (match connect_d (nkids m) (i, o) with Ok K => set_nkids m K | Err _ => m end) = true.
+Proof.
+  intros Hw. destruct (connect_d (nkids m) (i, o)) as [K'|] eqn:C; [|exact Hw].
+  destruct (wfb_parts _ Hw) as [Wk [Lk _]]. destruct (level_keys _ Lk) as [Ndi [Ndo [Nsi Nso]]].
+  pose proof (connect_d_level _ _ _ Lk C) as Lk'.
+  unfold connect_d in C. cbn [fst snd] in C.
+  destruct (assoc cref_eqb i (din (nkids m))); [|discriminate].
+  destruct (assoc cref_eqb o (dout (nkids m))); [|discriminate].
+  destruct (memb cref_eqb o l); inversion C; subst K'.
+  - destruct m; exact Hw.
+  - rewrite <- (@self_put _ Ndi Ndo Nsi Nso) in Lk' |- * at 1. rewrite put_upd_din, put_upd_dout in *.
+    apply wfb_set_put; auto.
+Qed.
+Lemma connect_s_wf m i o : wfb m = true ->
+  wfb (match connect_s (nkids m) (i, o) with Ok K => set_nkids m K | Err _ => m end) = true.
+Proof.
+  intros Hw. destruct (connect_s (nkids m) (i, o)) as [K'|] eqn:C; [|exact Hw].
+  destruct (wfb_parts _ Hw) as [Wk [Lk _]]. destruct (level_keys _ Lk) as [Ndi [Ndo [Nsi Nso]]].
+  pose proof (connect_s_level _ _ _ Lk C) as Lk'.
+  unfold connect_s in C. cbn [fst snd] in C.
+  destruct (assoc cref_eqb i (sinv (nkids m))); [|discriminate].
+  destruct (assoc cref_eqb o (soutv (nkids m))); [|discriminate].
+  destruct (memb cref_eqb o l); inversion C; subst K'.
+  - destruct m; exact Hw.
+  - rewrite <- (@self_put _ Ndi Ndo Nsi Nso) in Lk' |- * at 1. rewrite put_upd_sin, put_upd_sout in *.
+    apply wfb_set_put; auto.
+Qed.
+Lemma disc_d_wf m i o : wfb m = true ->
+  wfb (if has_key (din (nkids m)) i && has_key (dout (nkids m)) o then set_nkids m (disc_d (nkids m) i o) else m) = true.
+Proof.
+  intros Hw. destruct (has_key (din (nkids m)) i && has_key (dout (nkids m)) o) eqn:H; [|exact Hw].
+  apply andb_true_iff in H. destruct H as [Ki Ko].
+  destruct (wfb_parts _ Hw) as [Wk [Lk _]]. destruct (level_keys _ Lk) as [Ndi [Ndo [Nsi Nso]]].
+  pose proof (disc_d_level _ _ _ Lk Ki Ko) as Lk'.
+  rewrite <- (@self_put _ Ndi Ndo Nsi Nso) in Lk' |- * at 1. rewrite put_disc_d in *. apply wfb_set_put; auto.
+Qed.
+Lemma disc_s_wf m i o : wfb m = true ->
+  wfb (if has_key (sinv (nkids m)) i && has_key (soutv (nkids m)) o then set_nkids m (disc_s (nkids m) i o) else m) = true.
+Proof.
+  intros Hw. destruct (has_key (sinv (nkids m)) i && has_key (soutv (nkids m)) o) eqn:H; [|exact Hw].
+  apply andb_true_iff in H. destruct H as [Ki Ko].
+  destruct (wfb_parts _ Hw) as [Wk [Lk _]]. destruct (level_keys _ Lk) as [Ndi [Ndo [Nsi Nso]]].
+  pose proof (disc_s_level _ _ _ Lk Ki Ko) as Lk'.
+  rewrite <- (@self_put _ Ndi Ndo Nsi Nso) in Lk' |- * at 1. rewrite put_disc_s in *. apply wfb_set_put; auto.
+Qed.
+
+(* adding a fresh, unconnected child *)
+Lemma assoc_app_some (A B : table) k v : assoc cref_eqb k A = Some v -> assoc cref_eqb k (A ++ B) = Some v.
+Proof.
+  induction A as [|[k' v'] r IH]; cbn [assoc app]; [discriminate|]. destruct (cref_eqb k k'); auto.
+Qed.
+Lemma sym_half_app E E2 F F2 :
+  sym_half E F = true -> (forall e, In e E2 -> snd e = []) -> sym_half (E ++ E2) (F ++ F2) = true.
+Proof.
+  intros S H2. unfold sym_half in *. rewrite forallb_app. apply andb_true_iff. split.
+  - apply forallb_forall. intros e He. pose proof (forallb_In _ _ _ S He) as Se.
+    cbv beta in Se. apply forallb_forall. intros o Ho. pose proof (forallb_In _ _ _ Se Ho) as So. cbv beta in So.
+    destruct (assoc cref_eqb o F) as [l|] eqn:A; [|discriminate]. rewrite (@assoc_app_some F F2 o l A). exact So.
+  - apply forallb_forall. intros e He. rewrite (H2 e He). reflexivity.
+Qed.
+Lemma table_ok_app E E2 :
+  table_ok E = true -> NoDup (keys E2) -> (forall e, In e E2 -> snd e = []) ->
+  (forall k, In k (keys E) -> ~ In k (keys E2)) -> table_ok (E ++ E2) = true.
+Proof.
+  intros T N2 H2 D. apply table_ok_spec in T. destruct T as [N L]. apply table_ok_spec. split.
+  - unfold keys. rewrite map_app. apply nodup_app; auto.
+  - intros e He. apply in_app_or in He. destruct He as [He|He]; [auto|]. rewrite (H2 e He). constructor.
+Qed.
+
+Lemma keys_lab_din K key : In key (keys (din K)) -> In (fst key) (map nlab K).
+Proof.
+  unfold keys, din. rewrite in_map_iff. intros [[k l] [<- H]]. apply in_flat_map in H. destruct H as [x [Hx Hc]].
+  apply in_map_iff in Hc. destruct Hc as [c [E _]]. inversion E; subst. cbn. apply in_map. exact Hx.
+Qed.
+Lemma keys_lab_dout K key : In key (keys (dout K)) -> In (fst key) (map nlab K).
+Proof.
+  unfold keys, dout. rewrite in_map_iff. intros [[k l] [<- H]]. apply in_flat_map in H. destruct H as [x [Hx Hc]].
+  apply in_map_iff in Hc. destruct Hc as [c [E _]]. inversion E; subst. cbn. apply in_map. exact Hx.
+Qed.
+Lemma keys_lab_sinv K key : In key (keys (sinv K)) -> In (fst key) (map nlab K).
+Proof.
+  unfold keys, sinv. rewrite in_map_iff. intros [[k l] [<- H]]. apply in_flat_map in H. destruct H as [x [Hx Hc]].
+  apply in_map_iff in Hc. destruct Hc as [c [E _]]. inversion E; subst. cbn. apply in_map. exact Hx.
+Qed.
+Lemma keys_lab_soutv K key : In key (keys (soutv K)) -> In (fst key) (map nlab K).
+Proof.
+  unfold keys, soutv. rewrite in_map_iff. intros [[k l] [<- H]]. apply in_flat_map in H. destruct H as [x [Hx Hc]].
+  apply in_map_iff in Hc. destruct Hc as [c [E _]]. inversion E; subst. cbn. apply in_map. exact Hx.
+Qed.
+
+Definition fresh_kid lab kd cls (ins outs : list (string * slot)) (sin sout : list string) : node :=
+  Node lab kd cls false false ENone (map spec_d ins) (map spec_d outs) (map spec_s sin) (map spec_s sout) [] [] [].
+
+Lemma nodup_pairlab (lab : string) (ls : list string) : NoDup ls -> NoDup (map (fun l => (lab, l)) ls).
+Proof.
+  induction 1 as [|x r Hx Hn IH]; cbn [map]; constructor; auto.
+  rewrite in_map_iff. intros [y [E Hy]]. inversion E; subst. contradiction.
+Qed.
+
+Lemma level_ok_add K lab kd cls ins outs sin sout :
+  level_ok K = true -> ~ In lab (map nlab K) ->
+  NoDup (map fst ins) -> NoDup (map fst outs) -> NoDup sin -> NoDup sout ->
+  level_ok (K ++ [fresh_kid lab kd cls ins outs sin sout]) = true.
+Proof.
+  intros Lk Hl Ni No Nsi Nso.
+  destruct (level_ok_spec _ Lk) as [[Tdi [Tdo [Tsi Tso]]] [[Sd1 Sd2] [Ss1 Ss2]]].
+  set (new := fresh_kid lab kd cls ins outs sin sout).
+  assert (Edi : din (K ++ [new]) = din K ++ din [new]) by (unfold din; apply flat_map_app).
+  assert (Edo : dout (K ++ [new]) = dout K ++ dout [new]) by (unfold dout; apply flat_map_app).
+  assert (Esi : sinv (K ++ [new]) = sinv K ++ sinv [new]) by (unfold sinv; apply flat_map_app).
+  assert (Eso : soutv (K ++ [new]) = soutv K ++ soutv [new]) by (unfold soutv; apply flat_map_app).
+  assert (Zdi : forall e, In e (din [new]) -> snd e = []).
+  { intros e He. unfold din, new, fresh_kid in He. cbn in He. rewrite app_nil_r, map_map in He.
+    apply in_map_iff in He. destruct He as [x [<- _]]. reflexivity. }
+  assert (Zdo : forall e, In e (dout [new]) -> snd e = []).
+  { intros e He. unfold dout, new, fresh_kid in He. cbn in He. rewrite app_nil_r, map_map in He.
+    apply in_map_iff in He. destruct He as [x [<- _]]. reflexivity. }
+  assert (Zsi : forall e, In e (sinv [new]) -> snd e = []).
+  { intros e He. unfold sinv, new, fresh_kid in He. cbn in He. rewrite app_nil_r, map_map in He.
+    apply in_map_iff in He. destruct He as [x [<- _]]. reflexivity. }
+  assert (Zso : forall e, In e (soutv [new]) -> snd e = []).
+  { intros e He. unfold soutv, new, fresh_kid in He. cbn in He. rewrite app_nil_r, map_map in He.
+    apply in_map_iff in He. destruct He as [x [<- _]]. reflexivity. }
+  assert (Kdi : keys (din [new]) = map (fun l => (lab, l)) (map fst ins)).
+  { unfold keys, din, new, fresh_kid. cbn. rewrite app_nil_r, !map_map. reflexivity. }
+  assert (Kdo : keys (dout [new]) = map (fun l => (lab, l)) (map fst outs)).
+  { unfold keys, dout, new, fresh_kid. cbn. rewrite app_nil_r, !map_map. reflexivity. }
+  assert (Ksi : keys (sinv [new]) = map (fun l => (lab, l)) sin).
+  { unfold keys, sinv, new, fresh_kid. cbn. rewrite app_nil_r, !map_map. reflexivity. }
+  assert (Kso : keys (soutv [new]) = map (fun l => (lab, l)) sout).
+  { unfold keys, soutv, new, fresh_kid. cbn. rewrite app_nil_r, !map_map. reflexivity. }
+  assert (Fr : forall ls key, In (fst key) (map nlab K) -> ~ In key (map (fun l : string => (lab, l)) ls)).
+  { intros ls key Hk Hin. apply in_map_iff in Hin. destruct Hin as [l [<- _]]. cbn in Hk. contradiction. }
+  unfold level_ok. rewrite Edi, Edo, Esi, Eso. rewrite !andb_true_iff. repeat split.
+  - apply table_ok_app; auto; [rewrite Kdi; apply nodup_pairlab; exact Ni|].
+    intros k Hk. rewrite Kdi. apply Fr. apply keys_lab_din. exact Hk.
+  - apply table_ok_app; auto; [rewrite Kdo; apply nodup_pairlab; exact No|].
+    intros k Hk. rewrite Kdo. apply Fr. apply keys_lab_dout. exact Hk.
+  - apply table_ok_app; auto; [rewrite Ksi; apply nodup_pairlab; exact Nsi|].
+    intros k Hk. rewrite Ksi. apply Fr. apply keys_lab_sinv. exact Hk.
+  - apply table_ok_app; auto; [rewrite Kso; apply nodup_pairlab; exact Nso|].
+    intros k Hk. rewrite Kso. apply Fr. apply keys_lab_soutv. exact Hk.
+  - apply sym_half_app; auto.
+  - apply sym_half_app; auto.
+  - apply sym_half_app; auto.
+  - apply sym_half_app; auto.
+Qed.
+
+Lemma wfb_fresh lab kd cls ins outs sin sout : wfb (fresh_kid lab kd cls ins outs sin sout) = true.
+Proof. rewrite wfb_eq. cbn. apply orb_true_r. Qed.
+
+Lemma add_wf m lab kd cls ins outs sin sout : wfb m = true ->
+  wfb (if fresh_ok lab ins outs sin sout m
+       then set_nkids m (nkids m ++ [fresh_kid lab kd cls ins outs sin sout]) else m) = true.
+Proof.
+  intros Hw. destruct (fresh_ok lab ins outs sin sout m) eqn:F; [|exact Hw].
+  unfold fresh_ok in F. rewrite !andb_true_iff in F. destruct F as [[[[[Fc Fl] Fi] Fo] Fsi] Fso].
+  apply negb_true_iff in Fl. apply mems_nIn in Fl. apply nodupb_s in Fi, Fo, Fsi, Fso.
+  destruct (wfb_parts _ Hw) as [Wk [Lk [Nk [Sk Ek]]]].
+  rewrite wfb_eq. replace (nkids (set_nkids m (nkids m ++ [fresh_kid lab kd cls ins outs sin sout])))
+    with (nkids m ++ [fresh_kid lab kd cls ins outs sin sout]) by (destruct m; reflexivity).
+  replace (nstart (set_nkids m (nkids m ++ [fresh_kid lab kd cls ins outs sin sout]))) with (nstart m) by (destruct m; reflexivity).
+  replace (nkind (set_nkids m (nkids m ++ [fresh_kid lab kd cls ins outs sin sout]))) with (nkind m) by (destruct m; reflexivity).
+  rewrite forallb_app, Wk. cbn [forallb]. rewrite wfb_fresh. rewrite level_ok_add; auto. rewrite Fc.
+  rewrite !andb_true_iff. repeat split.
+  - apply nodupb_s. rewrite map_app. apply nodup_app; auto.
+    + cbn. constructor; [tauto|constructor].
+    + intros x Hx [H|[]]. cbn in H. subst x. contradiction.
+  - apply forallb_forall. intros x Hx. apply mems_In. rewrite map_app. apply in_or_app. left. apply Sk. exact Hx.
+Qed.
+
+Lemma wfb_own_edit m ins' outs' sin' sout' fl rn ex prov' :
+  wfb (Node (nlab m) (nkind m) (ncls m) fl rn ex ins' outs' sin' sout' (nkids m) (nstart m) prov') = wfb m.
+Proof. rewrite !wfb_eq. reflexivity. Qed.
+
+Lemma setval_view l v cs : map (fun c => (dlab c, dcon c)) (setval l v cs) = map (fun c => (dlab c, dcon c)) cs.
+Proof. unfold setval. rewrite map_map. apply map_ext. intros c. destruct (String.eqb (dlab c) l); reflexivity. Qed.
+Lemma setrcv_view l r cs : map (fun c => (dlab c, dcon c)) (setrcv l r cs) = map (fun c => (dlab c, dcon c)) cs.
+Proof. unfold setrcv. rewrite map_map. apply map_ext. intros c. destruct (String.eqb (dlab c) l); reflexivity. Qed.
+
+Lemma apply_op_wf o n : wfb n = true -> wfb (apply_op o n) = true.
+Proof.
+  intros Hw. destruct o; cbn [apply_op].
+  - (* OAdd *) apply at_path_pres; [| |exact Hw].
+    + intros m Hm. apply add_wf. exact Hm.
+    + intros m. destruct (fresh_ok lab ins outs sin sout m); [apply oview_set_nkids|reflexivity].
+  - (* OConnD *) apply at_path_pres; [| |exact Hw].
+    + intros m Hm. apply connect_d_wf. exact Hm.
+    + intros m. destruct (connect_d (nkids m) (i, o)); [apply oview_set_nkids|reflexivity].
+  - (* ODiscD *) apply at_path_pres; [| |exact Hw].
+    + intros m Hm. apply disc_d_wf. exact Hm.
+    + intros m. destruct (has_key (din (nkids m)) i && has_key (dout (nkids m)) o); [apply oview_set_nkids|reflexivity].
+  - (* OConnS *) apply at_path_pres; [| |exact Hw].
+    + intros m Hm. apply connect_s_wf. exact Hm.
+    + intros m. destruct (connect_s (nkids m) (i, o)); [apply oview_set_nkids|reflexivity].
+  - (* ODiscS *) apply at_path_pres; [| |exact Hw].
+    + intros m Hm. apply disc_s_wf. exact Hm.
+    + intros m. destruct (has_key (sinv (nkids m)) i && has_key (soutv (nkids m)) o); [apply oview_set_nkids|reflexivity].
+  - (* OSetIn *) apply at_path_pres; [| |exact Hw].
+    + intros m Hm. destruct (nrunning m); [exact Hm|]. unfold set_nins. rewrite wfb_own_edit. exact Hm.
+    + intros m. destruct (nrunning m); [reflexivity|]. unfold oview, set_nins. cbn. rewrite setval_view. reflexivity.
+  - (* OSetOut *) apply at_path_pres; [| |exact Hw].
+    + intros m Hm. unfold set_nouts. rewrite wfb_own_edit. exact Hm.
+    + intros m. unfold oview, set_nouts. cbn. rewrite setval_view. reflexivity.
+  - (* OFlags *) apply at_path_pres; [| |exact Hw].
+    + intros m Hm. rewrite wfb_own_edit. exact Hm.
+    + intros m. reflexivity.
+  - (* OExe *) apply at_path_pres; [| |exact Hw].
+    + intros m Hm. rewrite wfb_own_edit. exact Hm.
+    + intros m. reflexivity.
+  - (* ORcvd *) apply at_path_pres; [| |exact Hw].
+    + intros m Hm. unfold set_nsin. rewrite wfb_own_edit. exact Hm.
+    + intros m. unfold oview, set_nsin. cbn. rewrite map_map. f_equal. f_equal. apply map_ext. intros c.
+      destruct (String.eqb (slab c) l); reflexivity.
+  - (* OStart *) apply at_path_pres; [| |exact Hw].
+    + intros m Hm. destruct (forallb (fun l => mems l (map nlab (nkids m))) ls) eqn:F; [|exact Hm].
+      destruct (wfb_parts _ Hm) as [Wk [Lk [Nk [Sk Ek]]]]. rewrite wfb_eq. cbn [nkids nstart nkind].
+      rewrite Wk, Lk, F. rewrite !andb_true_iff. repeat split.
+      * apply nodupb_s. exact Nk.
+      * destruct (is_comp (nkind m)) eqn:Ec; [reflexivity|]. rewrite (Ek eq_refl). reflexivity.
+    + intros m. destruct (forallb (fun l => mems l (map nlab (nkids m))) ls); reflexivity.
+  - (* OProv *) apply at_path_pres; [| |exact Hw].
+    + intros m Hm. rewrite wfb_own_edit. exact Hm.
+    + intros m. reflexivity.
+  - (* OLinkIn *) apply at_path_pres; [| |exact Hw].
+    + intros m Hm. unfold set_nins. rewrite wfb_own_edit. exact Hm.
+    + intros m. unfold oview, set_nins. cbn. rewrite setrcv_view. reflexivity.
+  - (* OLinkOut *) apply at_path_pres; [| |exact Hw].
+    + intros m Hm. destruct (wfb_parts _ Hm) as [Wk [Lk _]]. apply wfb_set_kids; auto.
+      * rewrite forallb_map. apply forallb_forall. intros k Hk. destruct (String.eqb (nlab k) c).
+        -- unfold set_nouts. rewrite wfb_own_edit. exact (forallb_In _ _ _ Wk Hk).
+        -- exact (forallb_In _ _ _ Wk Hk).
+      * rewrite <- Lk. apply level_ok_oview. rewrite map_map. apply map_ext. intros k.
+        destruct (String.eqb (nlab k) c); [|reflexivity]. unfold oview, set_nouts. cbn. rewrite setrcv_view. reflexivity.
+      * rewrite map_map. apply map_ext. intros k. destruct (String.eqb (nlab k) c); [|reflexivity]. destruct k; reflexivity.
+    + intros m. apply oview_set_nkids.
+  - (* OUnlinkIn *) apply at_path_pres; [| |exact Hw].
+    + intros m Hm. unfold set_nins. rewrite wfb_own_edit. exact Hm.
+    + intros m. unfold oview, set_nins. cbn. rewrite setrcv_view. reflexivity.
+Qed.
+
+Theorem build_wf lab kd cls ins outs sin sout ops :
+  wfb (build (root0 lab kd cls ins outs sin sout) ops) = true.
+Proof.
+  unfold build. assert (H0 : wfb (root0 lab kd cls ins outs sin sout) = true).
+  { unfold root0. rewrite wfb_eq. cbn. apply orb_true_r. }
+  revert H0. generalize (root0 lab kd cls ins outs sin sout). induction ops as [|o r IH]; intros n Hn; [exact Hn|].
+  cbn [fold_left]. apply IH. apply apply_op_wf. exact Hn.
+Qed.
+
 (* =================================================================== 14. property-level statements for pickle *)
 Definition guards (n : node) : Prop :=
   wfb n = true /\ own_ok n = true /\
@@ -2037,6 +2903,20 @@ Proof.
   apply exec_iter; auto.
 Qed.
 
+Theorem roundtrip_file c n :
+  guards n -> cown c = true ->
+  exists n', trips 1 BFile (c, n) = Ok (mkC None (root_det c) false, n') /\
+             same (strip_root n) n' /\ no_own_conns n' /\ din (nkids n') = din (nkids n).
+Proof.
+  intros [Hw [Ho [Hr [Hu Hs]]]] Hc. exists (adopted (ref n)).
+  split; [cbn [trips trip]; rewrite trip_file_exact; auto|].
+  assert (S : same (strip_root n) (adopted (ref n))).
+  { apply same_adopted; [apply same_ref; exact Hw|].
+    destruct (wfb_parts _ (wfb_ref n Hw)) as [_ [Lk _]]. exact Lk. }
+  split; [exact S|]. split; [apply adopted_no_own; apply ref_no_own|].
+  apply same_eq in S. destruct S as [_ [_ [_ [_ [_ [_ [_ [_ [_ [_ [_ [D _]]]]]]]]]]]]. exact D.
+Qed.
+
 (* ---- witnesses ---------------------------------------------------------------------------------- *)
 Definition sigs_in : list schan := [mkS "run" [] []; mkS "accumulate_and_run" [] []].
 Definition sigs_out : list schan := [mkS "ran" [] []; mkS "failed" [] []].
@@ -2080,7 +2960,10 @@ Lemma refuted_desync :
   exists c' n', trips 1 BPickle (ctx0, n) = Ok (c', n') /\
                 vals_in (nkids n) = [(("inner", "x"), Data (OZ 7))] /\
                 vals_in (nkids n') = [(("inner", "x"), Data (OZ 1))].
-Proof. vm_compute. repeat split; try reflexivity. eexists _, _. repeat split; reflexivity. Qed.
+Proof.
+  repeat (split; [vm_compute; reflexivity|]).
+  eexists _, _. split; [vm_compute; reflexivity|]. split; vm_compute; reflexivity.
+Qed.
 
 (* hand-wired fan-out a.ran -> [b.run, c.run]: restore re-makes it as [c.run, b.run] *)
 Definition lin0 (lab : string) (tag : Z) (run_from ran_to : list cref) : node :=
@@ -2099,7 +2982,10 @@ Lemma refuted_rerun :
   sig_canon_level (nkids w_fan) = false /\
   exists c' n', trips 1 BPickle (ctx0, w_fan) = Ok (c', n') /\
                 prov_of (exec 20 w_fan) = ["a"; "b"; "c"] /\ prov_of (exec 20 n') = ["a"; "c"; "b"].
-Proof. vm_compute. repeat split; try reflexivity. eexists _, _. repeat split; reflexivity. Qed.
+Proof.
+  repeat (split; [vm_compute; reflexivity|]).
+  eexists _, _. split; [vm_compute; reflexivity|]. split; vm_compute; reflexivity.
+Qed.
 
 (* Node.load: the adopted channels are owned by the throw-away instance; a macro loaded that way
    cannot be saved and loaded again *)
@@ -2107,12 +2993,19 @@ Lemma refuted_file_owner :
   let n := w_outer false (Data (OZ 1)) in
   guards n /\ exists c' n', trips 1 BFile (ctx0, n) = Ok (c', n') /\ cown c' = false /\
                             trips 2 BFile (ctx0, n) = Err KeyErr.
-Proof. split; [vm_compute; repeat split; reflexivity|]. vm_compute. eexists _, _. repeat split; reflexivity. Qed.
+Proof.
+  split; [vm_compute; repeat split; reflexivity|].
+  eexists _, _. split; [vm_compute; reflexivity|]. split; vm_compute; reflexivity.
+Qed.
 
 (* non-vacuity: the guards hold of a nested macro with multi-connection inputs *)
 Definition w_multi : node :=
   Node "wf" KWf "Workflow" false false ENone [] [] sigs_in sigs_out
-       [lin0 "a" 0 [] [("c", "accumulate_and_run"); ("b", "run")];
+       [Node "a" KLeaf "Lin0" false false ENone
+             [mkD "tag" (Data (OZ 0)) [] RNone; mkD "k" (Data (OZ 1)) [] RNone]
+             [mkD "y" NotData [("c", "a"); ("b", "a")] RNone]
+             [mkS "run" [] []; mkS "accumulate_and_run" [] []]
+             [mkS "ran" [("c", "accumulate_and_run"); ("b", "run")] []; mkS "failed" [] []] [] [] [];
         Node "b" KLeaf "Lin1" false false (EInstr (OL [OS "instr"])) 
              [mkD "tag" (Data (OZ 1)) [] RNone; mkD "k" (Data (OZ 2)) [] RNone; mkD "a" NotData [("a", "y")] RNone]
              [mkD "y" (Data (OZ 5)) [("c", "a")] RNone]
